@@ -176,18 +176,33 @@ theorem reverse_preserves_info (p p' : PathV) (hv : p.Valid) (hgap : p.seg1 = 0 
 
 /-! ## 3. View and model agree on every model the encoder accepts -/
 
-/-- **Reversal.**  For every wire-valid model `m` (any position): both reversals succeed and
-`encode (reverse m) = reverse (encode m)`. -/
-theorem reverse_agree (m : PathM) (hw : m.wireValid = true) :
+/-- **Reversal.**  For every wire-valid model `m` with at most 64 hop fields (any position): both
+reversals succeed and `encode (reverse m) = reverse (encode m)`. -/
+theorem reverse_agree (m : PathM) (hw : m.wireValid = true) (h64 : m.hopCount ≤ MAX_TOTAL_HOPS + 1) :
     ∃ m' v, reverseModel m = (m', .ok ()) ∧ m.encode = some v ∧
       reverseView v = (reversedState v, .ok ()) ∧ m'.encode = some (reversedState v) := by
   refine ⟨mRev m, m.encodeUnchecked, reverseModel_of_wireValid m hw, by simp [PathM.encode, hw],
     reverseView_encode_ok m hw, ?_⟩
   cases m with | mk ci ch segs =>
   rcases wireValid_cases _ hw with ⟨a, h⟩ | ⟨a, b, h⟩ | ⟨a, b, c, h⟩
-  · simp only at h; subst h; exact agree_one ci ch a hw
-  · simp only at h; subst h; exact agree_two ci ch a b hw
-  · simp only at h; subst h; exact agree_three ci ch a b c hw
+  · simp only at h; subst h; exact agree_one ci ch a hw h64
+  · simp only at h; subst h; exact agree_two ci ch a b hw h64
+  · simp only at h; subst h; exact agree_three ci ch a b c hw h64
+
+/-- The bound of `reverse_agree` is needed on the current code: the encoder accepts a model with 65 hop
+fields at `current_hop_field = 0`; the view over its encoding reverses (writing index 64 through the 6-bit
+CurrHF field), the model reverses to `current_hop_field = 64`, which the encoder then rejects
+(`wire_valid` bounds `current_hop_field` but not the hop-field count).  Replayed on the real code by
+`corpus/C12/050-*.case`; open finding `C12:agree:reverse`. -/
+theorem reverse_agree_witness :
+    ∃ m : PathM, m.wireValid = true ∧ (reverseView m.encodeUnchecked).2 = .ok () ∧
+      (reverseModel m).2 = .ok () ∧ (reverseModel m).1.encode = none := by
+  let h : HopF := ⟨0, 0, 0, 0, 0⟩
+  let i : InfoM := ⟨0, 0, 0⟩
+  refine ⟨⟨0, 0, [⟨i, List.replicate 33 h⟩, ⟨i, List.replicate 32 h⟩]⟩, by decide, ?_, ?_, ?_⟩
+  · rw [reverseView_encode_ok _ (by decide)]
+  · rw [reverseModel_of_wireValid _ (by decide)]
+  · rw [reverseModel_of_wireValid _ (by decide)]; decide
 
 /-- the segment iterator of the view over `encode m` yields the model's segments -/
 theorem enc_segments (m : PathM) (hw : m.wireValid = true) :
@@ -207,7 +222,7 @@ what `StandardPath::expiration` returns. -/
 theorem expiry_agree (m : PathM) (hw : m.wireValid = true) :
     m.encodeUnchecked.expiration = some m.expiration := by
   obtain ⟨-, -, h3⟩ := (enc_segs m hw).choose_spec
-  obtain ⟨-, -, hn0, -, -, hseg⟩ := (wireValid_iff m).1 hw
+  obtain ⟨-, -, hn0, -, -, hseg, -⟩ := (wireValid_iff m).1 hw
   unfold PathV.expiration PathM.expiration
   rw [h3, if_neg hn0, enc_segments m hw]
   exact expiryLoop_agree m.segs U32_MAX (fun s hs => (hseg s hs).2)
@@ -219,7 +234,7 @@ theorem queries_agree (m : PathM) (hw : m.wireValid = true) :
     (m.encodeUnchecked.seg0, m.encodeUnchecked.seg1, m.encodeUnchecked.seg2) = (m.segLen 0, m.segLen 1, m.segLen 2) ∧
     m.encodeUnchecked.hops = m.iterHops ∧ m.encodeUnchecked.infos.map InfoF.toM = m.iterInfos ∧
     m.encodeUnchecked.segments.map (fun s => (s.1.toM, s.2)) = m.segs.map (fun s => (s.info, s.hops)) := by
-  obtain ⟨-, -, -, -, -, hseg⟩ := (wireValid_iff _).1 hw
+  obtain ⟨-, -, -, -, -, hseg, -⟩ := (wireValid_iff _).1 hw
   have hsegs := enc_segments m hw
   cases m with | mk ci ch segs =>
   rcases wireValid_cases _ hw with ⟨a, h⟩ | ⟨a, b, h⟩ | ⟨a, b, c, h⟩
@@ -233,12 +248,11 @@ theorem queries_agree (m : PathM) (hw : m.wireValid = true) :
       InfoM.toV, InfoF.toM]
     first | omega | ((repeat' split) <;> omega)
 
-/-- **Conversion, model → view → model.**  `from_view (encode m) = m` for every wire-valid model whose
-current hop index fits the 6-bit CurrHF field. -/
-theorem convert_roundtrip (m : PathM) (hw : m.wireValid = true) (h64 : m.currHf < 2 ^ META_CURR_HOP_FIELD_WIDTH) :
-    fromView m.encodeUnchecked = m := by
+/-- **Conversion, model → view → model.**  `from_view (encode m) = m` for every wire-valid model (since
+/repo 6beb049 `wire_valid` rejects a current hop index that does not fit the 6-bit CurrHF field). -/
+theorem convert_roundtrip (m : PathM) (hw : m.wireValid = true) : fromView m.encodeUnchecked = m := by
   obtain ⟨extra, h1, -, -⟩ := enc_segs m hw
-  obtain ⟨-, hn3, -, -, hci, -⟩ := (wireValid_iff m).1 hw
+  obtain ⟨-, hn3, -, -, hci, -, h64⟩ := (wireValid_iff m).1 hw
   unfold fromView
   rw [h1]
   have := fromViewSegs_encode m.segs extra []
@@ -248,21 +262,130 @@ theorem convert_roundtrip (m : PathM) (hw : m.wireValid = true) (h64 : m.currHf 
   have e2 : m.encodeUnchecked.hops = (m.segs.map (·.hops)).flatten := rfl
   rw [e, e2, this]
   cases m with | mk ci ch segs =>
-  simp only [PathM.encodeUnchecked, MAX_SEGMENTS, META_CURR_INFO_FIELD_WIDTH, META_CURR_HOP_FIELD_WIDTH] at *
+  simp only [PathM.encodeUnchecked, MAX_SEGMENTS, MAX_TOTAL_HOPS, META_CURR_INFO_FIELD_WIDTH, META_CURR_HOP_FIELD_WIDTH] at *
   congr 1 <;> omega
 
-/-- The hypothesis of `convert_roundtrip` is needed: the encoder accepts a model with 65 hop fields
-and `current_hop_field = 64` and writes the pointer through the 6-bit field, so the conversion back
-yields `current_hop_field = 0`. (Replayed on the real code by `hx_path`, stream "owned models".) -/
-theorem convert_roundtrip_witness :
-    ∃ m : PathM, m.wireValid = true ∧ fromView m.encodeUnchecked ≠ m ∧ (fromView m.encodeUnchecked).currHf = 0 := by
-  let h : HopF := ⟨0, 0, 0, 0, 0⟩
-  let i : InfoM := ⟨0, 0, 0⟩
-  refine ⟨⟨1, 64, [⟨i, List.replicate 33 h⟩, ⟨i, List.replicate 32 h⟩]⟩, by decide, ?_, by decide⟩
-  intro e
-  have := congrArg PathM.currHf e
-  revert this
-  decide
+/-- `v` with the reserved bits of the meta header and of every info field cleared -/
+def clearRsv (v : PathV) : PathV := { v with rsv := 0, infos := v.infos.map (fun i => { i with rsv := 0 }) }
+
+theorem toV_toM (i : InfoF) : i.toM.toV = { i with rsv := 0 } := rfl
+
+theorem take_drop_three (hs : List HopF) (a b c : Nat) (h : hs.length = a + b + c) :
+    hs.take a ++ ((hs.drop a).take b ++ ((hs.drop a).drop b).take c) = hs := by
+  have h3 : ((hs.drop a).drop b).take c = (hs.drop a).drop b := by
+    apply List.take_of_length_le; simp only [List.length_drop]; omega
+  rw [h3, List.take_append_drop, List.take_append_drop]
+
+/-- **Conversion, view → model → view.**  If the model read from a view is accepted by the encoder, encoding
+it reproduces the view up to the reserved bits (which the model does not carry). -/
+theorem convert_roundtrip_view (v : PathV) (hv : v.Valid) (hw : (fromView v).wireValid = true) :
+    (fromView v).encodeUnchecked = clearRsv v := by
+  obtain ⟨h1, h2, h3, h4, h5, h6, hi, hh, -, -⟩ := hv
+  obtain ⟨-, -, hn0, hch, hci, hseg, -⟩ := (wireValid_iff _).1 hw
+  cases v with | mk ci ch rsv s0 s1 s2 is hs =>
+  simp only [PathV.infoCount, infoCount, b2n, PathV.hopCount, decide_eq_true_eq,
+    META_CURR_INFO_FIELD_WIDTH, META_CURR_HOP_FIELD_WIDTH, META_SEG0_LEN_WIDTH, META_SEG1_LEN_WIDTH, META_SEG2_LEN_WIDTH] at *
+  simp only [fromView, MAX_SEGMENT_HOPS] at hn0 hch hci hseg ⊢
+  match is, hi with
+  | [], _ => simp [fromViewSegs] at hn0
+  | [i0], hi =>
+    simp only [fromViewSegs, List.mem_cons, List.not_mem_nil, or_false, forall_eq, List.length_take] at hseg
+    simp only [List.length_cons, List.length_nil] at hi
+    have z : s0 ≠ 0 ∧ s1 = 0 ∧ s2 = 0 := by
+      refine ⟨?_, ?_, ?_⟩ <;> (repeat' split at hi) <;> omega
+    obtain ⟨z0, rfl, rfl⟩ := z
+    simp [fromViewSegs, PathM.encodeUnchecked, PathM.segLen, PathM.iterInfos, PathM.iterHops, clearRsv, toV_toM,
+      META_CURR_INFO_FIELD_WIDTH, META_CURR_HOP_FIELD_WIDTH, META_SEG0_LEN_WIDTH, META_SEG1_LEN_WIDTH, META_SEG2_LEN_WIDTH]
+    exact ⟨by omega, by omega, by omega, List.take_of_length_le (by omega)⟩
+  | [i0, i1], hi =>
+    simp only [fromViewSegs, List.mem_cons, List.not_mem_nil, or_false, forall_eq_or_imp, forall_eq, List.length_take,
+      List.length_drop] at hseg
+    simp only [List.length_cons, List.length_nil] at hi
+    have z : s0 ≠ 0 ∧ s1 ≠ 0 ∧ s2 = 0 := by
+      refine ⟨?_, ?_, ?_⟩ <;> (repeat' split at hi) <;> omega
+    obtain ⟨z0, z1, rfl⟩ := z
+    simp [fromViewSegs, PathM.encodeUnchecked, PathM.segLen, PathM.iterInfos, PathM.iterHops, clearRsv, toV_toM,
+      META_CURR_INFO_FIELD_WIDTH, META_CURR_HOP_FIELD_WIDTH, META_SEG0_LEN_WIDTH, META_SEG1_LEN_WIDTH, META_SEG2_LEN_WIDTH]
+    refine ⟨by omega, by omega, by omega, by omega, ?_⟩
+    have := take_drop_three hs s0 s1 0 (by omega)
+    simpa using this
+  | [i0, i1, i2], hi =>
+    simp only [fromViewSegs, List.mem_cons, List.not_mem_nil, or_false, forall_eq_or_imp, forall_eq, List.length_take,
+      List.length_drop] at hseg
+    simp [fromViewSegs, PathM.encodeUnchecked, PathM.segLen, PathM.iterInfos, PathM.iterHops, clearRsv, toV_toM,
+      META_CURR_INFO_FIELD_WIDTH, META_CURR_HOP_FIELD_WIDTH, META_SEG0_LEN_WIDTH, META_SEG1_LEN_WIDTH, META_SEG2_LEN_WIDTH]
+    refine ⟨by omega, by omega, by omega, by omega, by omega, ?_⟩
+    have := take_drop_three hs s0 s1 s2 (by omega)
+    simpa using this
+  | _ :: _ :: _ :: _ :: _, hi => simp only [List.length_cons] at hi; (repeat' split at hi) <;> omega
+
+/-- the same as a statement about `try_encode_to_vec`: it succeeds and returns the view with the reserved bits cleared -/
+theorem convert_roundtrip_view_encode (v : PathV) (hv : v.Valid) (hw : (fromView v).wireValid = true) :
+    (fromView v).encode = some (clearRsv v) := by
+  unfold PathM.encode; rw [if_pos hw, convert_roundtrip_view v hv hw]
+
+theorem minList_spec (l : List Nat) : (l = [] ∧ minList l = none) ∨ (∃ m, minList l = some m ∧ m ∈ l ∧ ∀ x ∈ l, m ≤ x) := by
+  induction l with
+  | nil => exact .inl ⟨rfl, rfl⟩
+  | cons a as ih =>
+    right
+    rcases ih with ⟨rfl, -⟩ | ⟨m, hm, hmem, hle⟩
+    · exact ⟨a, by simp [minList], by simp, by simp⟩
+    · simp only [minList, hm]
+      by_cases h : a ≤ m
+      · refine ⟨a, by simp [h], by simp, ?_⟩
+        intro x hx; rcases List.mem_cons.1 hx with rfl | hx
+        · exact Nat.le_refl _
+        · exact Nat.le_trans h (hle x hx)
+      · refine ⟨m, by simp [h], by simp [hmem], ?_⟩
+        intro x hx; rcases List.mem_cons.1 hx with rfl | hx
+        · omega
+        · exact hle x hx
+
+theorem minList_reverse (l : List Nat) : minList l.reverse = minList l := by
+  rcases minList_spec l with ⟨rfl, -⟩ | ⟨m, hm, hmem, hle⟩
+  · rfl
+  · rcases minList_spec l.reverse with ⟨he, -⟩ | ⟨m', hm', hmem', hle'⟩
+    · simp at he; subst he; simp at hmem
+    · rw [hm, hm']
+      have a := hle' m (List.mem_reverse.2 hmem)
+      have b := hle m' (List.mem_reverse.1 hmem')
+      congr 1; omega
+
+/-- the expiry contribution of one segment is unchanged by reversing it -/
+theorem segExp_rev (s : SegM) :
+    minList (({ s with info := s.info.toggle, hops := s.hops.reverse } : SegM).hops.map (·.exp)) = minList (s.hops.map (·.exp)) := by
+  simp only [List.map_reverse, minList_reverse]
+
+/-- **Expiry is invariant under reversal** (`ScionPath` caches the expiry across `try_reverse`): for every
+wire-valid model, and hence – by `reverse_agree` and `expiry_agree` – for its encoding. -/
+theorem reverse_preserves_expiry (m : PathM) (hw : m.wireValid = true) :
+    (mRev m).expiration = m.expiration ∧
+    (m.hopCount ≤ MAX_TOTAL_HOPS + 1 →
+      (reversedState m.encodeUnchecked).expiration = m.encodeUnchecked.expiration) := by
+  have hm : (mRev m).expiration = m.expiration := by
+    obtain ⟨-, -, -, -, -, hseg, -⟩ := (wireValid_iff _).1 hw
+    cases m with | mk ci ch segs =>
+    rcases wireValid_cases _ hw with ⟨a, h⟩ | ⟨a, b, h⟩ | ⟨a, b, c, h⟩
+    all_goals
+      simp only at h
+      subst h
+      simp only [PathM.expiration, mRev, reversedSegs, List.map_cons, List.map_nil, List.reverse_cons, List.reverse_nil,
+        List.nil_append, List.cons_append, expiryLoopM, List.map_reverse, minList_reverse, InfoM.toggle]
+      first
+        | done
+        | ((repeat' split) <;> (try simp only [Nat.min_def]) <;> (repeat' split) <;> omega)
+  refine ⟨hm, ?_⟩
+  intro h64
+  obtain ⟨m', v, h1, h2, h3, h4⟩ := reverse_agree m hw h64
+  have e1 : m' = mRev m := by rw [reverseModel_of_wireValid m hw] at h1; exact (Prod.mk.inj h1).1.symm
+  have e2 : v = m.encodeUnchecked := by simp [PathM.encode, hw] at h2; exact h2.symm
+  subst e1 e2
+  have hw' : (mRev m).wireValid = true := by
+    unfold PathM.encode at h4; split at h4 <;> simp_all
+  have e3 : (mRev m).encodeUnchecked = reversedState m.encodeUnchecked := by
+    unfold PathM.encode at h4; rw [if_pos hw'] at h4; exact Option.some.inj h4
+  rw [← e3, expiry_agree _ hw', expiry_agree _ hw, hm]
 
 /-! ## 4. Totality: no panic site is reachable -/
 
